@@ -316,7 +316,7 @@ func (c *Ctx) execBlocks(fr *frame) Value {
 			if fr.backEdges[next.Index] > c.maxUnwindSeen {
 				c.maxUnwindSeen = fr.backEdges[next.Index]
 			}
-			if fr.backEdges[next.Index] > c.unwind {
+			if fr.backEdges[next.Index] > c.unwind && !c.isHarnessFn(fr.fn) { // harness oracles are bounded by construction (instruction budget still applies)
 				msg := fmt.Sprintf("loop in %s block %d exceeded unwind %d", fr.fn, next.Index, c.unwind)
 				var vec []uint64
 				if c.solver != nil {
